@@ -158,6 +158,10 @@ class CGen:
 
 
 PROBES = [
+    # a STEP that starts with a sign / is an expression (B is 2, 2, 1, -2 in the four input vectors)
+    "10 FOR I=6 TO 1 STEP -B:PRINT I:NEXT I\n20 PRINT \"D\"", "10 FOR I=1 TO 6 STEP +B:PRINT I:NEXT\n20 PRINT \"D\"",
+    "10 FOR I=6 TO 1 STEP -(B):PRINT I:NEXT I", "10 FOR I=8 TO 1 STEP -B*2:PRINT I:NEXT I", "10 FOR I=1 TO 6 STEP B+1:PRINT I:NEXT I",
+    "10 FOR I=1 TO 6 STEP ABS(B):PRINT I:NEXT I", "10 FOR I=6 TO 1 STEP (-B):PRINT I:NEXT I", "10 FOR I=-B TO +B:PRINT I:NEXT I",
     # an ELSE IF chain whose last ELSE is empty: when no guard holds, both programs go on with the next line
     "10 IF A=1 THEN PRINT \"ONE\" ELSE IF A=2 THEN PRINT \"TWO\" ELSE\n20 PRINT \"AFTER\"",
     "10 IF A=1 THEN PRINT \"ONE\" ELSE IF A=2 THEN PRINT \"TWO\" ELSE IF A=3 THEN PRINT \"THREE\" ELSE :\n20 PRINT \"AFTER\"",
@@ -326,8 +330,17 @@ def classify(case, impl, why):
             if "does not stop" in why or "budget" in why or "nothing" in why:
                 return "else-if-chain-without-else-never-exits"
     if re.search(r"FOR [A-Z]+=.* TO ", t) and ("stopped" in why or "print" in why):
-        # a loop whose range is empty at entry runs once in Color BASIC, never in BASIC09
-        return "for-zero-trip"
+        # a loop whose range is empty at entry runs once in Color BASIC, never in BASIC09.  Counterfactual: were that the only
+        # difference, the translated program would behave like the source on a BASIC09 whose FOR runs its body once
+        import ctlsem as C
+        C.LENIENT.add("for-zero-trip")
+        try:
+            again = oracle(case, impl)
+        except Exception:  # noqa: BLE001
+            again = "error"
+        finally:
+            C.LENIENT.discard("for-zero-trip")
+        return "for-zero-trip" if again is None else None
     return None
 
 
